@@ -193,6 +193,12 @@ class Bench:
         elif kind == "peer":
             if not c._handshake_complete or net.send(pb.DisconnectRequest()) == "skipped":
                 c.force_disconnect()
+            elif c.connection_state is not ac.CONNECTION_STATE_CLOSED:
+                # the device has ended the session (its request has been answered): from this moment no session is alive - a
+                # command issued in the same turn is refused, a new attempt accepted
+                self.bad.append(("session-outlives-peer-disconnect", "the device's DisconnectRequest has been dispatched and answered, "
+                                 f"yet the connection is still in state {STATE[c.connection_state]} when the data has been processed: "
+                                 "commands are still written and a new attempt is refused although the session is over"))
         elif kind == "fatal":
             c.report_fatal_error(core.PingFailedAPIError("x"))
         elif kind == "writefail":
